@@ -1,2 +1,22 @@
-import XModel
-def main : IO Unit := IO.println "xdriver"
+import Driver.Mgr
+/-! `xdriver <suite>`: one JSON object per input line, one JSON object per output line. -/
+open Lean
+
+partial def loopMgr (h : IO.FS.Stream) (out : IO.FS.Stream) (s : Manager.MState) (n : Nat) : IO Unit := do
+  let line ← h.getLine
+  if line.isEmpty then return ()
+  match Json.parse line with
+  | .error e =>
+    out.putStrLn (Json.mkObj [("n", n), ("bad-op", .str ("parse: " ++ e))]).compress
+    loopMgr h out s (n+1)
+  | .ok j =>
+    let (s', o) := DMgr.step s j
+    out.putStrLn (o.setObjVal! "n" n).compress
+    loopMgr h out s' (n+1)
+
+def main (args : List String) : IO UInt32 := do
+  let stdin ← IO.getStdin
+  let stdout ← IO.getStdout
+  match args with
+  | ["mgr"] => loopMgr stdin stdout Manager.MState.init 0; return 0
+  | _ => IO.eprintln "usage: xdriver <suite>"; return 2
